@@ -100,6 +100,8 @@ var Projections = map[string]*Projection{
 	// oversized / undersized messages during startup and authentication: the preamble is the subject
 	"C10pre": {Recv: map[string]fieldSet{"*": kinds, "E": fs("code", "fatal")},
 		Cb: map[string]fieldSet{"*": fs("q", "def")}},
+	"C20": {SkipPreamble: true, Recv: map[string]fieldSet{"*": kinds, "t": fs("n", "wf")},
+		Cb: map[string]fieldSet{"*": fs("q", "def")}},
 	"C09": {SkipPreamble: true, Recv: map[string]fieldSet{"*": kinds, "T": fs("n", "oids", "fmts"), "D": fs("n", "cells")},
 		Cb: map[string]fieldSet{"*": fs("q", "def", "ret", "written")}},
 }
